@@ -158,3 +158,72 @@ def wsdl_multi(nops=3, multipart=True):
     sch = Schema(NSW, els, prefixes={})
     w = Wsdl(NSW, sch, msgs, ops)
     return w
+
+
+# ------------------------------------------------------------------------------------------------ C08: extension forests
+
+def x_chain(tier='quick', decoy=False):
+    """Base <- Mid <- Leaf in one file; declaration order symbolic (all 6 permutations); optional decoy: a type that
+    is declared first and has a LOCAL element / attribute named like the base types"""
+    base = CT('Base', Seq([El('a', 'xs:string'), El('a2', 'xs:long', '0')]), attrs=[Attr('v', 'xs:string', 'required')])
+    mid = CT('Mid', Seq([El('b', 'xs:int')]), base='t:Base', ext_attrs=[Attr('w', 'xs:string')])
+    leaf = CT('Leaf', Seq([El('c', 'xs:boolean', None, 'unbounded'), Choice([El('d1', 'xs:string'), El('d2', 'xs:int')])]), base='t:Mid')
+    empty = CT('Bare', None, base='t:Base')
+    comps = [base, mid, leaf, empty]
+    order = Selector('order', perms(4) if tier == 'thorough' else [(0, 1, 2, 3), (3, 2, 1, 0), (1, 0, 3, 2), (2, 3, 0, 1), (2, 0, 3, 1), (3, 1, 2, 0)])
+    if decoy:
+        dec = CT('Decoy', Seq([El('Base', 'xs:string'), El('Mid', 'xs:int')]), attrs=[Attr('Leaf', 'xs:string')])
+        comps = [dec] + comps
+        order = Selector('order', [(0,) + tuple(i + 1 for i in p) for p in order.options])
+    sch = Schema(NS1, comps, prefixes={'t': NS1}, order=order)
+    sc = Scenario('X-chain' + ('-decoy' if decoy else ''), {'a.xsd': sch}, 'a.xsd', [order])
+    return sc, Info(schemas={'a.xsd': sch}, subjects=[('a.xsd', base)], derived=[('a.xsd', mid, ('a.xsd', base)), ('a.xsd', leaf, ('a.xsd', mid)), ('a.xsd', empty, ('a.xsd', base))],
+                    simple=[], bases={'Base': None, 'Mid': ('a.xsd', base), 'Leaf': ('a.xsd', mid), 'Bare': ('a.xsd', base)})
+
+
+def x_cross(tier='quick'):
+    """base in another namespace and file; the importing file declares the derived type before or after the import's use"""
+    base = CT('Base', Seq([El('a', 'xs:string')]), attrs=[Attr('v', 'xs:string')])
+    sch_b = Schema(NS2, [base], prefixes={'m': NS2})
+    other = CT('Unrelated', Seq([El('u', 'xs:string')]))
+    der = CT('Derived', Seq([El('b', 'xs:int')]), base='m:Base')
+    order = Selector('order', perms(2))
+    sch_a = Schema(NS1, [other, der], prefixes={'t': NS1, 'm': NS2}, imports=[(NS2, 'b.xsd')], order=order)
+    sc = Scenario('X-cross', {'a.xsd': sch_a, 'b.xsd': sch_b}, 'a.xsd', [order])
+    return sc, Info(schemas={'a.xsd': sch_a, 'b.xsd': sch_b}, subjects=[('b.xsd', base), ('a.xsd', other)], derived=[('a.xsd', der, ('b.xsd', base))], simple=[],
+                    bases={'Base': None, 'Derived': ('b.xsd', base), 'Unrelated': None})
+
+
+# ------------------------------------------------------------------------------------------------ C09: QName resolution
+
+def q_types(tier='quick'):
+    """two namespaces define a complexType with the SAME local name but different members; references (type=, base=)
+    use a symbolic prefix; declaration order symbolic"""
+    thing1 = CT('Thing', Seq([El('x1', 'xs:string')]))
+    thing2 = CT('Thing', Seq([El('x2', 'xs:int'), El('y2', 'xs:long')]))
+    sch_b = Schema(NS2, [thing2], prefixes={'m': NS2})
+    pfx = Selector('ref_prefix', ['t', 'm'])
+    bpfx = Selector('base_prefix', ['t', 'm'])
+    tref = Selector('type_ref', ['t:Thing', 'm:Thing'])
+    bref = Selector('base_ref', ['t:Thing', 'm:Thing'])
+    user = CT('User', Seq([El('thing', tref), El('n', 'xs:string')]))
+    der = CT('Special', Seq([El('extra', 'xs:boolean')]), base=bref)
+    order = Selector('order', perms(3) if tier == 'thorough' else [(0, 1, 2), (2, 1, 0), (1, 2, 0)])
+    sch_a = Schema(NS1, [thing1, user, der], prefixes={'t': NS1, 'm': NS2}, imports=[(NS2, 'b.xsd')], order=order)
+    sc = Scenario('Q-types', {'a.xsd': sch_a, 'b.xsd': sch_b}, 'a.xsd', [tref, bref, order])
+    return sc, Info(schemas={'a.xsd': sch_a, 'b.xsd': sch_b}, things={'t': ('a.xsd', thing1), 'm': ('b.xsd', thing2)}, user=user, der=der,
+                    tref=tref, bref=bref, subjects=[('a.xsd', user)], simple=[])
+
+
+def q_rebind(tier='quick'):
+    """the same prefix is bound to different namespaces in different files"""
+    inner1 = CT('Inner', Seq([El('p1', 'xs:string')]))
+    inner2 = CT('Inner', Seq([El('p2', 'xs:int')]))
+    holder2 = CT('Holder', Seq([El('inner', 't:Inner')]))          # in b.xsd, t = NS2 -> must be NS2's Inner
+    sch_b = Schema(NS2, [inner2, holder2], prefixes={'t': NS2})
+    top = CT('Top', Seq([El('inner', 't:Inner'), El('holder', 'o:Holder')]))   # in a.xsd, t = NS1
+    order = Selector('order', perms(2))
+    sch_a = Schema(NS1, [inner1, top], prefixes={'t': NS1, 'o': NS2}, imports=[(NS2, 'b.xsd')], order=order)
+    sc = Scenario('Q-rebind', {'a.xsd': sch_a, 'b.xsd': sch_b}, 'a.xsd', [order])
+    return sc, Info(schemas={'a.xsd': sch_a, 'b.xsd': sch_b}, simple=[], subjects=[('a.xsd', top)],
+                    expect=[('Top', 'inner', NS1), ('Holder', 'inner', NS2)], probes={NS1: ('Top', 'p1'), NS2: ('Holder', 'p2')})
